@@ -47,6 +47,11 @@ def handleStream (args impl : List String) : Option (String × String) :=
 def handle (cmd : String) (args impl : List String) : Option (String × String) :=
   if cmd = "c04.pool" then handlePool args impl
   else if cmd = "c04.stream" then handleStream args impl
+  else if cmd = "c04.hbstress" then
+    -- real heartbeat goroutine vs owners in blockGet: the lock order stream.mu → blockedMu is never
+    -- inverted (Props/C04 no_wait_cycle_copy_then_unlock), so events keep being taken
+    let want := "progress 1 stalled 0 taken 1"
+    some (want, if Tok.unwords impl = want then "ok" else "fail")
   else if cmd = "c04.burst" then
     -- liveness oracle of the whole-pipeline burst runs: the stream charged together with a never-drying
     -- one is attended by another processor while the first still flows (Props/C04
